@@ -189,6 +189,10 @@ def run():
         for k in ks:
             for kind in ('kill_before', 'kill_after'):
                 items.append(dict(shape=s, fmt=f, variant=v_, kind=kind, k=k))
+            if v_ == 'default' and k % 3 == 0:
+                # the interruption is an exception raised by the file operation (disk full, permission): the failed dump must not leave a
+                # descriptor that lists files which were never completed either
+                items.append(dict(shape=s, fmt=f, variant=v_, kind='raise', k=k))
         items.append(dict(shape=s, fmt=f, variant=v_, kind='kill_before', k=c['nops'] + 5))      # never fires: the complete dump
     traces = pmap(crash_case, items, chunksize=2)
     errs = harness_errors(traces)
